@@ -519,6 +519,8 @@ pub fn target_family(p: &BigUint, nbytes: usize) -> Vec<BigUint> {
     v.extend(cmp_family_at(&half, nbytes));
     v.extend(neg_family(p, nbytes));
     v.extend(xor_family(p, nbytes));
+    // values whose INTERNAL (Montgomery) representation is a structured limb pattern
+    v.extend(mont_patterns(p, nbytes, 0));
     for i in 1..8u32 {
         v.push(BigUint::from(i));
         v.push(p - i);
